@@ -335,6 +335,55 @@ def standin_devices(tier, seed):
                 got = False
             if got != want:
                 R.bad("GridDevice.validate_circuit disagrees with per-operation acceptance", circuit=c, accepted=got)
+    # Google: a device whose gateset has tag-conditioned families (an operation's tags decide membership, not only its gate);
+    # circuits that mix accepted and refused variants of ONE gate value, in both orders
+    spec2 = v2.device_pb2.DeviceSpecification()
+    spec2.valid_qubits.extend([v2.qubit_to_proto_id(x) for x in gq])
+    tgt2 = spec2.valid_targets.add()
+    tgt2.name = "2q"
+    tgt2.target_ordering = v2.device_pb2.TargetSet.SYMMETRIC
+    for a, b in pairs:
+        t = tgt2.targets.add()
+        t.ids.extend([v2.qubit_to_proto_id(a), v2.qubit_to_proto_id(b)])
+    for field in ("fsim_via_model", "physical_zpow", "phased_xz", "meas", "cz"):
+        try:
+            getattr(spec2.valid_gates.add(), field).SetInParent()
+        except AttributeError:
+            pass
+    try:
+        dev2 = cirq_google.GridDevice.from_proto(spec2)
+    except Exception as ex:
+        dev2 = None
+    if dev2 is not None:
+        gs2 = dev2.metadata.gateset
+        pairset = {frozenset(p) for p in pairs}
+        fs = cirq.FSimGate(np.pi / 4, 0.3)
+        variants = [
+            [fs.on(gq[0], gq[1]).with_tags(cirq_google.FSimViaModelTag()), fs.on(gq[0], gq[1])],
+            [(cirq.Z ** 0.25).on(gq[0]).with_tags(cirq_google.PhysicalZTag()), (cirq.Z ** 0.25).on(gq[0])],
+            [(cirq.Z ** 0.25).on(gq[0]).with_tags(cirq_google.PhysicalZTag()), (cirq.Z ** 0.25).on(gq[1])],
+            [cirq.CZ(gq[0], gq[1]), cirq.CZ(gq[0], gq[1]).with_tags("anything")],
+            [cirq.CZ(gq[0], gq[1]), cirq.CZ(gq[2], gq[3])],          # same gate, second pair is not coupled
+            [cirq.CZ(gq[0], gq[1]), cirq.CZ(gq[0], off)],
+        ]
+
+        def op_ok2(op):
+            variadic = isinstance(op.gate, (cirq.MeasurementGate, cirq.WaitGate))
+            return (op in gs2) and all(x in gq for x in op.qubits) and (len(op.qubits) != 2 or variadic or frozenset(op.qubits) in pairset)
+
+        for pair_ in variants:
+            for seq in (pair_, pair_[::-1], pair_ + pair_[:1]):
+                for c in (cirq.Circuit(cirq.Moment([o]) for o in seq), cirq.Circuit(seq)):
+                    R.cases += 1
+                    want = all(op_ok2(op) for op in c.all_operations())
+                    try:
+                        dev2.validate_circuit(c)
+                        got = True
+                    except ValueError:
+                        got = False
+                    if got != want:
+                        R.bad("GridDevice.validate_circuit (tag-conditioned gate families) disagrees with per-operation gateset membership / qubits / pairs", circuit=c, accepted=got,
+                              per_operation=[op_ok2(op) for op in c.all_operations()])
     # IonQ, AQT, Pasqal: accept exactly (in gateset and on device qubits [and within the interaction rule])
     iq = cirq.LineQubit.range(3)
     idev = cirq_ionq.IonQAPIDevice(qubits=iq)
